@@ -673,3 +673,358 @@ fn c05_canary() {
     let _ = lxr.next_char();
     assert!(lxr.location.to_u32() != 2);
 }
+
+// ---------------------------------------------------------------------------------------------
+// Indentation handling and end-of-input flush (bounded stand-ins: loops over the text).
+
+/// One of the characters that matter at the start of a line.
+fn any_indent_char() -> Option<char> {
+    let k: u8 = kani::any();
+    kani::assume(k < 8);
+    match k {
+        0 => Some(' '),
+        1 => Some('\t'),
+        2 => Some('#'),
+        3 => Some('\x0C'),
+        4 => Some('\n'),
+        5 => Some('\r'),
+        6 => Some('a'),
+        _ => None,
+    }
+}
+
+fn indent_stream() -> [Option<char>; 5] {
+    let s = [any_indent_char(), any_indent_char(), any_indent_char(), any_indent_char(), any_indent_char()];
+    kani::assume(s[0].is_some() || s[1].is_none());
+    kani::assume(s[1].is_some() || s[2].is_none());
+    kani::assume(s[2].is_some() || s[3].is_none());
+    kani::assume(s[3].is_some() || s[4].is_none());
+    s
+}
+
+/// Reference scan of the indentation of one logical line start over the 5-character stream,
+/// written from the lexer's documented rules: returns (Ok(level) | Err(position of offending tab),
+/// characters consumed, saw a non-blank character).
+fn ref_eat_indentation(s: &[Option<char>; 5]) -> (Result<(u32, u32), usize>, usize, bool) {
+    let mut spaces = 0u32;
+    let mut tabs = 0u32;
+    let mut i = 0usize; // index of the next unread character
+    let mut in_comment = false;
+    let mut code = false;
+    let mut done = false;
+    let mut err: Option<usize> = None;
+    for _ in 0..6 {
+        if !done {
+            let c = if i < 5 { s[i] } else { None };
+            if in_comment {
+                match c {
+                    Some('\n') | Some('\r') | None => {
+                        in_comment = false;
+                        spaces = 0;
+                        tabs = 0;
+                    }
+                    Some(_) => i += 1,
+                }
+            } else {
+                match c {
+                    Some(' ') => {
+                        i += 1;
+                        spaces += 1;
+                    }
+                    Some('\t') => {
+                        if spaces != 0 {
+                            err = Some(i);
+                            done = true;
+                        } else {
+                            i += 1;
+                            tabs += 1;
+                        }
+                    }
+                    Some('#') => in_comment = true,
+                    Some('\x0C') => {
+                        i += 1;
+                        spaces = 0;
+                        tabs = 0;
+                    }
+                    Some('\n') | Some('\r') => {
+                        // CR LF is one line break
+                        if c == Some('\r') && i + 1 < 5 && s[i + 1] == Some('\n') {
+                            i += 2;
+                        } else {
+                            i += 1;
+                        }
+                        spaces = 0;
+                        tabs = 0;
+                    }
+                    None => {
+                        spaces = 0;
+                        tabs = 0;
+                        done = true;
+                    }
+                    Some(_) => {
+                        code = true;
+                        done = true;
+                    }
+                }
+            }
+        }
+    }
+    kani::assume(done && !in_comment); // the bounded stream was long enough to finish the scan
+    match err {
+        Some(p) => (Err(p), i, code),
+        None => (Ok((tabs, spaces)), i, code),
+    }
+}
+
+fn lexer_on(s: [Option<char>; 5], start: u32, nesting: usize) -> Lexer<Src> {
+    Lexer {
+        at_begin_of_line: true,
+        nesting,
+        indentations: Indentations::default(),
+        pending: Vec::with_capacity(5),
+        location: TextSize::new(start),
+        window: CharWindow { source: Src { items: [s[3], s[4], None, None], i: 0 }, window: [s[0], s[1], s[2]] },
+    }
+}
+
+// @ob id=C04.k.eat_indentation props=C04,C05,C03 kind=bounded tier=thorough timeout=900
+// @bound logical-line starts of at most 5 characters over the alphabet space, tab, '#', form feed, LF, CR, 'a' (and end of input)
+// @clause indentation counting: spaces and tabs before the first non-blank character are counted; blank lines, comment-only lines and form feeds reset the count; a tab after a counted space is TabsAfterSpaces at the tab; the position advances by exactly the characters consumed (single-byte here, CR LF two) and the line-start flag is cleared exactly when code follows
+// @fns Lexer::eat_indentation Lexer::lex_comment
+#[kani::proof]
+#[kani::unwind(8)]
+fn c04_eat_indentation() {
+    let s = indent_stream();
+    let start: u32 = kani::any();
+    kani::assume(start <= MAX_START);
+    let (expect, consumed, code) = ref_eat_indentation(&s);
+    let mut lxr = ManuallyDrop::new(lexer_on(s, start, kani::any()));
+    let r = ManuallyDrop::new(lxr.eat_indentation());
+    match (&*r, expect) {
+        (Ok(level), Ok((tabs, spaces))) => {
+            assert!(level.tabs == tabs && level.spaces == spaces);
+            assert!(lxr.location.to_u32() == start + consumed as u32);
+            assert!(lxr.at_begin_of_line == !code);
+        }
+        (Err(e), Err(p)) => {
+            assert!(matches!(e.error, LexicalErrorType::TabsAfterSpaces));
+            assert!(e.location.to_u32() == start + p as u32);
+        }
+        _ => assert!(false),
+    }
+    #[cfg(not(feature = "full-lexer"))]
+    assert!(lxr.pending.is_empty());
+    kani::cover!(r.is_err());
+    kani::cover!(matches!(&*r, Ok(l) if l.tabs == 1 && l.spaces == 2));
+    kani::cover!(consumed == 5 && code == false);
+}
+
+fn stack_of(n: usize, l1: IndentationLevel, l2: IndentationLevel) -> Indentations {
+    let mut v = vec![IndentationLevel::default()];
+    if n >= 1 {
+        v.push(l1);
+    }
+    if n >= 2 {
+        v.push(l2);
+    }
+    Indentations { indent_stack: v }
+}
+
+/// handle_indentations on a line "<spaces><tabs...>a": contract against the indentation-stack rule
+/// of the language reference (2.1.8), for a CONCRETE stack depth `n` (1 + n entries).
+fn handle_indentations_for(n: usize) -> (u8, usize) {
+    // line = t tabs, then sp spaces, then 'a' (tabs first: the only order the lexer accepts)
+    let t: u32 = kani::any();
+    let sp: u32 = kani::any();
+    kani::assume(t <= 4 && sp <= 4 && t + sp <= 4);
+    let mut s: [Option<char>; 5] = [None; 5];
+    for i in 0..5 {
+        s[i] = if (i as u32) < t { Some('\t') } else if (i as u32) < t + sp { Some(' ') } else if (i as u32) == t + sp { Some('a') } else { None };
+    }
+    let l1 = IndentationLevel { tabs: kani::any(), spaces: kani::any() };
+    let l2 = IndentationLevel { tabs: kani::any(), spaces: kani::any() };
+    // stack entries strictly increase (invariant maintained by push: only Greater levels are pushed)
+    kani::assume(l1.tabs <= 4 && l1.spaces <= 4 && l2.tabs <= 4 && l2.spaces <= 4);
+    kani::assume((l1.tabs > 0 || l1.spaces > 0) && l1.tabs >= 0);
+    kani::assume(l2.tabs >= l1.tabs && l2.spaces >= l1.spaces && (l2.tabs > l1.tabs || l2.spaces > l1.spaces));
+    let start: u32 = kani::any();
+    kani::assume(start <= MAX_START);
+    let nesting: usize = kani::any();
+    let mut lxr = lexer_on(s, start, nesting);
+    lxr.indentations = stack_of(n, l1, l2);
+    let mut lxr = ManuallyDrop::new(lxr);
+    let r = ManuallyDrop::new(lxr.handle_indentations());
+    let pos = start + t + sp;
+    let new = IndentationLevel { tabs: t, spaces: sp };
+    let stack = [IndentationLevel::default(), l1, l2];
+    let depth = n + 1;
+    if nesting != 0 {
+        // inside brackets indentation is insignificant
+        assert!(r.is_ok() && lxr.pending.is_empty() && lxr.indentations.indent_stack.len() == depth);
+        return (10, 0);
+    }
+    // reference: compare with the top; pop while smaller
+    let ambiguous = |a: IndentationLevel, b: IndentationLevel| (a.tabs < b.tabs && a.spaces > b.spaces) || (a.tabs > b.tabs && a.spaces < b.spaces);
+    let less = |a: IndentationLevel, b: IndentationLevel| a.tabs < b.tabs || (a.tabs == b.tabs && a.spaces < b.spaces);
+    let top = stack[depth - 1];
+    if ambiguous(new, top) {
+        match &*r {
+            Err(e) => assert!(matches!(e.error, LexicalErrorType::TabError) && e.location.to_u32() == pos),
+            Ok(()) => assert!(false),
+        }
+        return (3, 0);
+    }
+    if new == top {
+        assert!(r.is_ok() && lxr.pending.is_empty() && lxr.indentations.indent_stack.len() == depth);
+        (11, 0)
+    } else if !less(new, top) {
+        // deeper: one INDENT covering exactly the indentation characters
+        assert!(r.is_ok());
+        assert!(lxr.pending.len() == 1);
+        let (tok, range) = &lxr.pending[0];
+        assert!(matches!(tok, Tok::Indent));
+        assert!(range.start().to_u32() == pos - sp - t && range.end().to_u32() == pos);
+        assert!(lxr.indentations.indent_stack.len() == depth + 1);
+        (12, 0)
+    } else {
+        // shallower: pop until a level that is not deeper than the new one
+        let mut d = depth;
+        let mut pops = 0;
+        let mut outcome = 0; // 1 ok, 2 indentation error, 3 tab error
+        for _ in 0..3 {
+            if outcome == 0 {
+                let cur = stack[d - 1];
+                if ambiguous(new, cur) {
+                    outcome = 3;
+                } else if new == cur {
+                    outcome = 1;
+                } else if less(new, cur) {
+                    d -= 1;
+                    pops += 1;
+                } else {
+                    outcome = 2;
+                }
+            }
+        }
+        match &*r {
+            Ok(()) => {
+                assert!(outcome == 1);
+                assert!(lxr.indentations.indent_stack.len() == d);
+            }
+            Err(e) => {
+                assert!(e.location.to_u32() == pos);
+                match e.error {
+                    LexicalErrorType::IndentationError => assert!(outcome == 2),
+                    LexicalErrorType::TabError => assert!(outcome == 3),
+                    _ => assert!(false),
+                }
+            }
+        }
+        // one DEDENT per popped level, each empty at the first code character
+        assert!(lxr.pending.len() == pops);
+        for i in 0..2 {
+            if i < pops {
+                let (tok, range) = &lxr.pending[i];
+                assert!(matches!(tok, Tok::Dedent));
+                assert!(range.start().to_u32() == pos && range.end().to_u32() == pos);
+            }
+        }
+        (outcome, pops)
+    }
+}
+
+// @ob id=C04.k.handle_indentations_d0 props=C04,C05,C03 kind=bounded tier=thorough timeout=900
+// @bound stack of 1 level (module level only); lines with at most 4 indentation characters (tabs then spaces)
+// @clause INDENT/DEDENT bookkeeping at the start of a logical line, stack depth 1: deeper than the top pushes and emits one Indent whose range is exactly the indentation characters (no underflow of pos - spaces - tabs); equal emits nothing; inside brackets nothing happens
+// @fns Lexer::handle_indentations Lexer::eat_indentation IndentationLevel::compare_strict Indentations::push Indentations::pop Indentations::current
+#[kani::proof]
+#[kani::unwind(8)]
+fn c04_handle_indentations_d0() {
+    let (outcome, _) = handle_indentations_for(0);
+    kani::cover!(outcome == 12); // an Indent was emitted
+    kani::cover!(outcome == 11); // same level
+    kani::cover!(outcome == 10); // inside brackets
+}
+
+// @ob id=C04.k.handle_indentations_d2 props=C04,C05,C03 kind=bounded tier=thorough timeout=900
+// @bound stack of 3 levels (two open blocks, each level's tabs and spaces <= 4, strictly increasing); lines with at most 4 indentation characters
+// @clause dedent to an unknown level: with two open blocks, a shallower line emits one Dedent (empty range at the first code character) per closed block and stops at an equal level; a level strictly between two stack entries is IndentationError, tab/space ambiguity against any compared level is TabError, both at the first code character
+// @fns Lexer::handle_indentations IndentationLevel::compare_strict Indentations::pop
+#[kani::proof]
+#[kani::unwind(8)]
+fn c04_handle_indentations_d2() {
+    let (outcome, pops) = handle_indentations_for(2);
+    kani::cover!(outcome == 2); // dedent to an unknown level
+    kani::cover!(outcome == 3); // tab/space ambiguity
+    kani::cover!(outcome == 1 && pops == 2);
+    kani::cover!(outcome == 12);
+}
+
+/// End-of-input flush for a concrete stack depth.
+fn eof_flush_for(n: usize, bol: bool) {
+    let l1 = IndentationLevel { tabs: kani::any(), spaces: kani::any() };
+    let l2 = IndentationLevel { tabs: kani::any(), spaces: kani::any() };
+    let start: u32 = kani::any();
+    let nesting: usize = kani::any();
+    let mut lxr = lexer_on([None; 5], start, nesting);
+    lxr.at_begin_of_line = bol;
+    lxr.indentations = stack_of(n, l1, l2);
+    let mut lxr = ManuallyDrop::new(lxr);
+    let r = ManuallyDrop::new(lxr.consume_normal());
+    if nesting > 0 {
+        match &*r {
+            Err(e) => assert!(matches!(e.error, LexicalErrorType::Eof) && e.location.to_u32() == start),
+            Ok(()) => assert!(false),
+        }
+        assert!(lxr.pending.is_empty());
+        return;
+    }
+    assert!(r.is_ok());
+    let nl = if bol { 0 } else { 1 };
+    assert!(lxr.pending.len() == nl + n + 1);
+    for i in 0..4 {
+        if i < lxr.pending.len() {
+            let (tok, range) = &lxr.pending[i];
+            assert!(range.start().to_u32() == start && range.end().to_u32() == start);
+            if i < nl {
+                assert!(matches!(tok, Tok::Newline));
+            } else if i < nl + n {
+                assert!(matches!(tok, Tok::Dedent));
+            } else {
+                assert!(matches!(tok, Tok::EndOfFile));
+            }
+        }
+    }
+    assert!(lxr.indentations.indent_stack.len() == 1);
+    assert!(lxr.at_begin_of_line);
+}
+
+// @ob id=C05.k.eof_flush props=C05,C04,C03 kind=bounded tier=quick timeout=900
+// @bound indentation stack with 2 open blocks, unterminated last line (see eof_flush_d0 / eof_flush_bol for the other layouts)
+// @clause every INDENT is matched by a DEDENT before end of input: at end of input outside brackets the lexer emits a Newline iff the last line was not terminated, then one Dedent per open block, then EndOfFile, all empty at the end offset; inside brackets it is an Eof error there (unbalanced brackets)
+// @fns Lexer::consume_normal Indentations::pop Indentations::is_empty
+#[kani::proof]
+#[kani::unwind(8)]
+fn c05_eof_flush() {
+    eof_flush_for(2, false);
+}
+
+// @ob id=C05.k.eof_flush_bol props=C05,C04,C03 kind=bounded tier=quick timeout=900
+// @bound indentation stack with 1 open block, input ending right after a line break
+// @clause end of input at the start of a line: no extra Newline, one Dedent per open block, then EndOfFile
+// @fns Lexer::consume_normal
+#[kani::proof]
+#[kani::unwind(8)]
+fn c05_eof_flush_bol() {
+    eof_flush_for(1, true);
+}
+
+// @ob id=C05.k.eof_flush_d0 props=C05,C04,C03 kind=bounded tier=quick timeout=900
+// @bound indentation stack with no open block
+// @clause end of input at module level: optional Newline, then EndOfFile, no Dedent; Eof error inside brackets
+// @fns Lexer::consume_normal
+#[kani::proof]
+#[kani::unwind(8)]
+fn c05_eof_flush_d0() {
+    eof_flush_for(0, kani::any());
+}
